@@ -642,13 +642,11 @@ class UnnormalizeVectBatch(Contract):
     def requires(self, c):
         s = c.old.self
         d = N2.S(s)
-        i = z3.Int("i!ai")
+        # (no assumption on the common dtype of the current values: since the repair 4832538 the result is cast to integers only when every
+        # component is an integer component - `recast_to_int = bool(self.__integer_components.all())` - so the clauses hold for every dtype;
+        # `monotone-lemma` is proved as C02 MonotoneLemma, wfnum is established by C02 UpdateNormalizationVars@lnk)
         return N2.wfnum(s) + [("one-column-per-component", c.old.x_vect.obj.shape[1] == d.dim), ("monotone-lemma", N2.increasing_implies_distinct(d)),
-                              ("out-is-none", c.arg("out") is None),
-                              # DesignSpace invariant: the common dtype of the current values is an integer dtype only when every variable is an
-                              # integer variable (values are cast to the dtype of their variable's type when they are set)
-                              ("integer-dtype-only-for-all-integer-spaces", z3.Implies(d.kind == str_lit("i"), z3.ForAll([i], z3.Implies(z3.And(0 <= i, i < d.dim), N2.el(d.ic, i)),
-                                                                                                                         patterns=[N2.el(d.ic, i)])))]
+                              ("out-is-none", c.arg("out") is None)]
 
     def axioms(self, c):
         t = z3.Real("t!ra")
